@@ -91,6 +91,12 @@ func childMain(args []string) {
 		fmt.Fprintln(os.Stderr, "unknown property", *prop)
 		os.Exit(2)
 	}
+	if !p.Race && os.Getenv("VERIF_NO_RLIMIT") == "" {
+		// contain a runaway allocation inside this child (not under -race: the
+		// detector's shadow memory needs the address space)
+		lim := uint64(24 << 30)
+		syscall.Setrlimit(syscall.RLIMIT_AS, &syscall.Rlimit{Cur: lim, Max: lim})
+	}
 	c := &Ctx{Prop: p, Tier: *tier, Seed: *seed, Shard: *shard, NShards: *n, Only: *only, From: *from, WorkDir: *work}
 	c.init()
 	os.MkdirAll(*work, 0o755)
@@ -128,6 +134,7 @@ func childMain(args []string) {
 }
 
 func (c *Ctx) finish() {
+	c.closePhase()
 	out := shardOut{Evals: c.evals, Cov: c.cov, Maxes: c.maxes, Samples: c.samples, Faults: c.faults, Info: c.info, Distinct: len(c.distinct)}
 	for _, k := range c.vorder {
 		out.Viol = append(out.Viol, c.viol[k])
